@@ -1,13 +1,13 @@
 //@target src/decoder/utils.rs
 //@props C02,C04
-//@needs C02_clean
+//@needs C02_clean,L1_crc
 //@assume get_message is verified with clean_squitter replaced by a stand-in that returns an arbitrary digit vector of length 14 or 28 (what the proved tail contract C02.clean_tail + T-digits allow it to return) or None
 
 #[cfg(kani)]
 mod verif_c02_message {
     use super::*;
     use crate::verif_spec::h::*;
-    use crate::verif_spec::*;
+    use crate::verif_spec as vs;
 
     static mut GHOST_D14: [u32; 14] = [0; 14];
     static mut GHOST_D28: [u32; 28] = [0; 28];
@@ -24,8 +24,38 @@ mod verif_c02_message {
     fn clean_stub_none(_line: &str) -> Option<Vec<u32>> {
         None
     }
+    // CRC routine stand-in for the modular (quick) obligations: returns an arbitrary 24-bit value
+    // c, the same on every call, and records what it was asked about.  By L1.crc56/L1.crc112 +
+    // L1.get_crc the real routine returns crc24(data bits), so "c" below reads "the CRC-24 of
+    // the data bits".
+    static mut G_CRC_INIT: bool = false;
+    static mut G_CRC: u32 = 0;
+    static mut G_CRC_DF: u32 = 99;
+    static mut G_CRC_LEN: usize = 0;
+    fn crc_stub(message: &[u32], df: u32) -> u32 {
+        unsafe {
+            if !G_CRC_INIT {
+                G_CRC_INIT = true;
+                let c: u32 = kani::any();
+                kani::assume(c <= 0xFF_FFFF);
+                G_CRC = c;
+            }
+            G_CRC_DF = df;
+            G_CRC_LEN = message.len();
+            G_CRC
+        }
+    }
+    /// C04 rule relative to a given CRC value of the data bits.
+    fn parity_rel(d: &[u32], c: u32) -> bool {
+        let syn = c ^ vs::ap_field(d);
+        match vs::df_of(d) {
+            17 | 18 => syn == 0,
+            11 => syn & 0xFF_FF80 == 0,
+            _ => true,
+        }
+    }
 
-    //@ob id=C02.get_message.none props=C02 tier=quick kind=harness fns=utils.rs:get_message
+    //@ob id=C02.get_message.none flags=noassert props=C02 tier=quick kind=harness fns=utils.rs:get_message
     //@region a line whose digit count is not 14/28/26/40 (clean_squitter gives None): not a frame
     #[kani::proof]
     #[kani::stub(clean_squitter, clean_stub_none)]
@@ -34,97 +64,143 @@ mod verif_c02_message {
         kani::cover!(true, "reach_end");
     }
 
-    //@ob id=C02.get_message.agree.14 props=C02,C01 tier=quick kind=harness fns=utils.rs:get_message draw=frame14
+    //@ob id=C02.get_message.agree.14 flags=noassert props=C02,C01 tier=quick kind=harness fns=utils.rs:get_message draw=frame14
     //@region all 14-digit vectors: accepted only if DF<=15 (a 56-bit frame announcing a 112-bit format is not a frame); accepted vector is returned unchanged
     #[kani::proof]
     #[kani::stub(clean_squitter, clean_stub_14)]
     #[kani::unwind(90)]
+    #[kani::stub(crate::decoder::utils::crc::get_crc, crc_stub)]
     fn c02_get_message_agree_14() {
         let r = get_message("x");
         let d = unsafe { GHOST_D14 };
         if let Some(v) = r {
             assert!(slices_eq(&v, &d), "accepted frame is the digit vector itself");
-            assert!(agree(&d), "accepted 14-digit frame has DF 0..15");
+            assert!(vs::agree(&d), "accepted 14-digit frame has DF 0..15");
             kani::cover!(true, "accepted");
         }
         kani::cover!(true, "reach_end");
     }
 
-    //@ob id=C02.get_message.agree.28 props=C02,C01 tier=quick kind=harness fns=utils.rs:get_message draw=frame28
+    //@ob id=C02.get_message.agree.28 flags=noassert props=C02,C01 tier=quick kind=harness fns=utils.rs:get_message draw=frame28
     //@region all 28-digit vectors: accepted only if DF>=16; accepted vector is returned unchanged
     #[kani::proof]
     #[kani::stub(clean_squitter, clean_stub_28)]
     #[kani::unwind(90)]
+    #[kani::stub(crate::decoder::utils::crc::get_crc, crc_stub)]
     fn c02_get_message_agree_28() {
         let r = get_message("x");
         let d = unsafe { GHOST_D28 };
         if let Some(v) = r {
             assert!(slices_eq(&v, &d), "accepted frame is the digit vector itself");
-            assert!(agree(&d), "accepted 28-digit frame has DF 16..31");
+            assert!(vs::agree(&d), "accepted 28-digit frame has DF 16..31");
             kani::cover!(true, "accepted");
         }
         kani::cover!(true, "reach_end");
     }
 
-    //@ob id=C04.get_message.parity.14 props=C04,C02 tier=quick kind=harness fns=utils.rs:get_message,utils/crc.rs:crc56 draw=frame14
-    //@region all 14-digit vectors: a DF11 frame is accepted only if the upper 17 bits of its CRC-24 syndrome are zero (all 2^56 bit patterns, hence every error pattern)
+    //@ob id=C04.get_message.parity.14 flags=noassert props=C04,C02 tier=quick kind=harness fns=utils.rs:get_message,utils/crc.rs:crc56 draw=frame14
+    //@region all 14-digit vectors: a DF11 frame is accepted only if (CRC-24 of its data bits xor its last 24 bits) has the upper 17 bits zero - for all 2^56 bit patterns, hence every error pattern; CRC routine replaced by its contract (L1.crc56, L1.get_crc)
     #[kani::proof]
     #[kani::stub(clean_squitter, clean_stub_14)]
     #[kani::unwind(90)]
-    #[kani::solver(kissat)]
+    #[kani::stub(crate::decoder::utils::crc::get_crc, crc_stub)]
     fn c04_get_message_parity_14() {
         let r = get_message("x");
         let d = unsafe { GHOST_D14 };
         if r.is_some() {
-            assert!(parity_ok(&d), "accepted DF11 frame has syndrome & 0xFFFF80 == 0");
+            assert!(parity_rel(&d, unsafe { G_CRC }), "accepted DF11 frame: (CRC-24 of the data bits xor PI) & 0xFFFF80 == 0");
+            if vs::df_of(&d) == 11 {
+                assert!(unsafe { G_CRC_INIT && G_CRC_DF == 11 && G_CRC_LEN == 14 }, "CRC taken over this frame as DF11");
+            }
         }
-        kani::cover!(r.is_some() && df_of(&d) == 11, "accepted DF11");
+        kani::cover!(r.is_some() && vs::df_of(&d) == 11, "accepted DF11");
         kani::cover!(true, "reach_end");
     }
 
-    //@ob id=C04.get_message.parity.28 props=C04,C02 tier=quick kind=harness fns=utils.rs:get_message,utils/crc.rs:crc112 draw=frame28
-    //@region all 28-digit vectors: a DF17/DF18 frame is accepted only if its CRC-24 syndrome is zero (all 2^112 bit patterns)
+    //@ob id=C04.get_message.parity.28 flags=noassert props=C04,C02 tier=quick kind=harness fns=utils.rs:get_message,utils/crc.rs:crc112 draw=frame28
+    //@region all 28-digit vectors: a DF17/DF18 frame is accepted only if the CRC-24 of its 88 data bits equals its PI field - for all 2^112 bit patterns; CRC routine replaced by its contract (L1.crc112, L1.get_crc)
     #[kani::proof]
     #[kani::stub(clean_squitter, clean_stub_28)]
     #[kani::unwind(90)]
-    #[kani::solver(kissat)]
+    #[kani::stub(crate::decoder::utils::crc::get_crc, crc_stub)]
     fn c04_get_message_parity_28() {
         let r = get_message("x");
         let d = unsafe { GHOST_D28 };
         if r.is_some() {
-            assert!(parity_ok(&d), "accepted DF17/18 frame has zero syndrome");
+            assert!(parity_rel(&d, unsafe { G_CRC }), "accepted DF17/18 frame: CRC-24 of the data bits == PI field");
+            if vs::df_of(&d) == 17 || vs::df_of(&d) == 18 {
+                assert!(unsafe { G_CRC_INIT && G_CRC_DF == vs::df_of(&d) && G_CRC_LEN == 28 }, "CRC taken over this frame with its DF");
+            }
         }
-        kani::cover!(r.is_some() && df_of(&d) == 17, "accepted DF17");
+        kani::cover!(r.is_some() && vs::df_of(&d) == 17, "accepted DF17");
         kani::cover!(true, "reach_end");
     }
 
-    //@ob id=C02.get_message.complete.14 props=C02 tier=quick kind=harness fns=utils.rs:get_message draw=frame14
+    //@ob id=C02.get_message.complete.14 flags=noassert props=C02 tier=quick kind=harness fns=utils.rs:get_message draw=frame14
     //@region converse for 14 digits: DF<=15 and (DF11 => parity ok) implies the line IS taken as a frame
     #[kani::proof]
     #[kani::stub(clean_squitter, clean_stub_14)]
     #[kani::unwind(90)]
-    #[kani::solver(kissat)]
+    #[kani::stub(crate::decoder::utils::crc::get_crc, crc_stub)]
     fn c02_get_message_complete_14() {
         let r = get_message("x");
         let d = unsafe { GHOST_D14 };
-        if frame_accepted(&d) {
+        if vs::agree(&d) && parity_rel(&d, unsafe { G_CRC }) {
             assert!(r.is_some(), "a well-formed 56-bit frame is accepted");
         }
         kani::cover!(true, "reach_end");
     }
 
-    //@ob id=C02.get_message.complete.28 props=C02 tier=quick kind=harness fns=utils.rs:get_message draw=frame28
+    //@ob id=C02.get_message.complete.28 flags=noassert props=C02 tier=quick kind=harness fns=utils.rs:get_message draw=frame28
     //@region converse for 28 digits: DF>=16 and (DF17/18 => parity ok) implies the line IS taken as a frame
     #[kani::proof]
     #[kani::stub(clean_squitter, clean_stub_28)]
     #[kani::unwind(90)]
-    #[kani::solver(kissat)]
+    #[kani::stub(crate::decoder::utils::crc::get_crc, crc_stub)]
     fn c02_get_message_complete_28() {
         let r = get_message("x");
         let d = unsafe { GHOST_D28 };
-        if frame_accepted(&d) {
+        if vs::agree(&d) && parity_rel(&d, unsafe { G_CRC }) {
             assert!(r.is_some(), "a well-formed 112-bit frame is accepted");
         }
+        kani::cover!(true, "reach_end");
+    }
+
+    //@ob id=C04.get_message.parity.14.e2e flags=noassert props=C04,C02 tier=thorough kind=harness fns=utils.rs:get_message,utils/crc.rs:crc56 draw=frame14
+    //@region end-to-end re-check of C04.get_message.parity.14 without the CRC stand-in (spec LFSR vs the real routine inside get_message)
+    #[kani::proof]
+    #[kani::stub(clean_squitter, clean_stub_14)]
+    #[kani::unwind(90)]
+    #[kani::solver(kissat)]
+    fn c04_get_message_parity_14_e2e() {
+        let r = get_message("x");
+        let d = unsafe { GHOST_D14 };
+        if r.is_some() {
+            assert!(vs::frame_accepted(&d), "accepted 14-digit frame: DF<=15 and DF11 parity");
+        }
+        if vs::frame_accepted(&d) {
+            assert!(r.is_some(), "a well-formed 56-bit frame is accepted");
+        }
+        kani::cover!(r.is_some() && vs::df_of(&d) == 11, "accepted DF11");
+        kani::cover!(true, "reach_end");
+    }
+
+    //@ob id=C04.get_message.parity.28.e2e flags=noassert mem=high props=C04,C02 tier=thorough kind=harness fns=utils.rs:get_message,utils/crc.rs:crc112 draw=frame28
+    //@region end-to-end re-check of C04.get_message.parity.28 without the CRC stand-in
+    #[kani::proof]
+    #[kani::stub(clean_squitter, clean_stub_28)]
+    #[kani::unwind(90)]
+    #[kani::solver(kissat)]
+    fn c04_get_message_parity_28_e2e() {
+        let r = get_message("x");
+        let d = unsafe { GHOST_D28 };
+        if r.is_some() {
+            assert!(vs::frame_accepted(&d), "accepted 28-digit frame: DF>=16 and DF17/18 parity");
+        }
+        if vs::frame_accepted(&d) {
+            assert!(r.is_some(), "a well-formed 112-bit frame is accepted");
+        }
+        kani::cover!(r.is_some() && vs::df_of(&d) == 17, "accepted DF17");
         kani::cover!(true, "reach_end");
     }
 }
